@@ -117,7 +117,22 @@ def gen_guarded_config(rng):
             a["abs"] = (b["abs"] + 1 + rng.randint(0, 1)) % 5 if (b["abs"] + 1) % 5 != b["abs"] else None
             if a["abs"] == b["abs"]:
                 a["abs"] = None
-    cfg = {"contracts": contracts, "txns": [a, b], "guard": {"mode": mode, "dets": dets, "access": access}}
+    txns = [a, b]
+    if rng.random() < 0.5:
+        # a bystander with a logic-sig that checks nothing (or little): its verdict must not depend on what the
+        # driver decided for the members listed before it
+        if rng.random() < 0.6:
+            progC = [("int", 1), ("return",)]
+            vC = 3
+        else:
+            cc = fragment.generate(rng, PROFILE)
+            progC, vC = cc["prog"], cc["version"]
+        contracts["lsigC"] = (progC, vC, "LogicSig")
+        txns.append({"id": "TC", "type": rng.choice(["txn", "pay", "axfer"]), "lsig": "lsigC", "app": None, "has_lsig": True,
+                     "abs": None, "rel": {}})
+    if rng.random() < 0.5:
+        rng.shuffle(txns)       # listing order is not part of the meaning of a configuration
+    cfg = {"contracts": contracts, "txns": txns, "guard": {"mode": mode, "dets": dets, "access": access}}
     return cfg
 
 
@@ -391,6 +406,31 @@ def check_config(cfg, rng, ctr):
                     ids.update(t.transacton_id for t in o.transactions)
                 reported[dobj.NAME] = ids
         ctr["configurations"] += 1
+        # the order in which the members are listed is not part of a configuration's meaning
+        if len(cfg["txns"]) > 1 and rng.random() < 0.35:
+            cfg2 = dict(cfg, txns=list(reversed(cfg["txns"])))
+            d2 = tempfile.mkdtemp(prefix="vt_c13r_")
+            try:
+                path2 = write_config(cfg2, d2)
+                with observe.Quiet():
+                    t2 = init_tealer_from_config(read_config_from_file(Path(path2)))
+                    for det in GROUP_DETECTORS:
+                        t2.register_detector(classes[det])
+                    rep2 = {}
+                    for dobj in t2.detectors:
+                        ids = set()
+                        for o in dobj.detect():
+                            ids.update(t.transacton_id for t in o.transactions)
+                        rep2[dobj.NAME] = ids
+                ctr["listing_order_comparisons"] += 1
+                for det in GROUP_DETECTORS:
+                    if rep2.get(det) != reported.get(det):
+                        viols.append({"kind": "verdict-depends-on-listing-order", "key": det,
+                                      "what": "%s reports %s, but %s when the same transactions are listed in reverse order" % (
+                                          det, sorted(reported.get(det, ())), sorted(rep2.get(det, ()))),
+                                      "config": {"txns": cfg["txns"]}})
+            finally:
+                shutil.rmtree(d2, ignore_errors=True)
         cross = any(t["rel"] or t["abs"] is not None for t in cfg["txns"]) and len(cfg["txns"]) > 1
         if cross:
             ctr["cross_reads_configs"] += 1
